@@ -3,6 +3,13 @@
 set -e
 cd "$(dirname "$0")"
 export CARGO_NET_OFFLINE=true
+# the generated Lean modules (translator half of the tie; check.py regenerates them on every run as well)
+for g in consts:SrcConsts tables:SrcTables; do
+  f="lean/DdsModel/DdsModel/${g##*:}.lean"; t=$(mktemp)
+  if "tools/extract_${g%%:*}.py" /repo > "$t"; then cmp -s "$t" "$f" || cp "$t" "$f"
+  else echo "setup: tools/extract_${g%%:*}.py failed; keeping the committed $f" >&2; fi
+  rm -f "$t"
+done
 (cd lean/DdsModel && lake build DdsModel driver)
 (cd harness && cargo build --offline --release --quiet && cargo build --offline --profile checked --quiet)
 echo setup-ok
